@@ -608,7 +608,7 @@ package raft
 //@    ud.CommittedEntries[len(ud.CommittedEntries) - 1].Index <= ud.EntriesToSave[len(ud.EntriesToSave) - 1].Index
 //@ ensures ud.Commit > 0 && len(ud.CommittedEntries) > 0 ==> ud.CommittedEntries[len(ud.CommittedEntries) - 1].Index <= ud.Commit
 
-//@ func (p *Peer) getUpdate [C19 C04 C03]
+//@ func (p *Peer) getUpdate [C19 C04 C03 C02]
 //@ noframe
 //@ requires p.raft != nil && p.raft.wf() && p.raft.log.processed < MaxUint64 && p.raft.log.inmem.savedTo < MaxUint64
 //@ modifies elems(p.raft.msgs)
@@ -860,3 +860,14 @@ package raft
 //@ noframe
 //@ nobounds
 //@ requires p.raft != nil
+
+// C07/C02: a new leader counts EVERY uncommitted config-change entry (a missed one would allow a
+// second membership change while the first is still in flight): the scan proceeds chunk by
+// chunk, each chunk starting right after the last entry of the previous one
+//@ func countConfigChange [C02 C07]
+//@ trusted counts the config-change entries of the chunk (five-line loop)
+//@ func (r *raft) getPendingConfigChangeCount [C02 C07]
+//@ noframe
+//@ nobounds
+//@ requires r.log != nil && r.log.valid() && r.log.committed < MaxUint64
+//@ loop 1 step len(ents) > 0 && idx == ents[len(ents) - 1].Index + 1
